@@ -17,8 +17,8 @@ import random
 ID = "C29"
 LEVEL = "exploration"
 TIERS = {
-    "quick": {"runs": 4000, "wall": 80, "chunk": 50, "shrink_s": 40, "run_cap_s": 60},
-    "thorough": {"runs": 800_000, "wall": 840, "chunk": 100, "shrink_s": 120, "run_cap_s": 60},
+    "quick": {"runs": 4000, "wall": 80, "chunk": 50, "shrink_s": 40, "run_cap_s": 120},
+    "thorough": {"runs": 800_000, "wall": 840, "chunk": 100, "shrink_s": 120, "run_cap_s": 120},
 }
 RULE = (
     "one run = one random circuit on 1-5 wires with 1-4 measurements (sample/counts/expval/var/probs over "
